@@ -202,6 +202,13 @@ func (ex *Exec) lookup(fr *Frame, st *State, x *ssa.Lookup) Val {
 	}
 	mv, _ := m.(*MapV)
 	ki, _ := k.(*IntV)
+	if mv != nil && mv.Dyn {
+		if hm, ok := st.heap[mv.Obj].(*MapV); ok && hm.Dyn && !hm.Unk {
+			mv = &MapV{Const: true, Keys: hm.Keys, Vals: hm.Vals, ElemT: hm.ElemT}
+		} else {
+			mv = nil
+		}
+	}
 	if mv != nil && mv.Const && ki != nil {
 		if c, ok := st.ConstOf(ki); ok {
 			for i, kk := range mv.Keys {
@@ -522,6 +529,11 @@ func (ex *Exec) callFn(fr *Frame, st *State, fn *ssa.Function, args []Val, x ssa
 	if res, ok := ex.fmtSummary(fr, st, fn, args, x, resT); ok {
 		return res
 	}
+	if ex.SortModel {
+		if res, ok := ex.sortSummary(fr, st, fn.String(), args, x); ok {
+			return res
+		}
+	}
 	if res, ok := ex.libSummary(fr, st, fn, args, x, resT); ok {
 		return res
 	}
@@ -613,7 +625,7 @@ func inlineStd(fn *ssa.Function) bool {
 // pureStd: standard-library functions without effects on the analysed heap.
 func pureStd(fn *ssa.Function) bool {
 	s := fn.String()
-	for _, p := range []string{"fmt.Sprintf", "fmt.Errorf", "fmt.Sprint", "errors.New", "fmt.Println", "fmt.Printf", "strings.", "math.", "time.", "sort.Ints", "strconv.", "(time.Duration).", "(time.Time).", "runtime."} {
+	for _, p := range []string{"fmt.Sprintf", "fmt.Errorf", "fmt.Sprint", "errors.New", "fmt.Println", "fmt.Printf", "strings.", "math.", "time.", "strconv.", "(time.Duration).", "(time.Time).", "runtime."} {
 		if strings.HasPrefix(s, p) {
 			return true
 		}
@@ -649,6 +661,11 @@ func (ex *Exec) builtin(fr *Frame, st *State, name string, args []Val, x ssa.Cal
 		case *MapV:
 			if a.Const {
 				return one(mkConst(int64(len(a.Keys)), 64, true))
+			}
+			if a.Dyn {
+				if hm, ok := st.heap[a.Obj].(*MapV); ok && hm.Dyn && !hm.Unk {
+					return one(mkConst(int64(len(hm.Keys)), 64, true))
+				}
 			}
 		case *PtrV:
 			// pointer to array
@@ -714,14 +731,17 @@ func (ex *Exec) appendOp(st *State, args []Val, x ssa.CallInstruction) Val {
 		if le, k := st.Decide("<=", n, s.Cap); k && le {
 			if arr, ok := ex.arrOf(st, s); ok {
 				at := st.Arith(token.ADD, s.Off, s.Len, "")
-				if ex.arrReplace(st, arr, st.TermOf(at), a2, st.TermOf(t.Len)) {
+				if ex.arrReplace(st, arr, st.TermOf(at), cloneVal(&ArrayV{Elem: elemT, Segs: a2}).(*ArrayV).Segs, st.TermOf(t.Len)) {
 					return &SliceV{Obj: s.Obj, Path: s.Path, Off: s.Off, Len: n, Cap: s.Cap}
 				}
 			}
 		}
 	}
+	// a new backing array: the elements are COPIED (struct elements must not stay shared with the old array, which
+	// pointers handed out earlier still refer to)
 	segs := normSegs(append(append([]Seg{}, a1...), a2...))
-	id := ex.newObj(st, &ArrayV{Elem: elemT, Segs: segs}, nil)
+	fresh := cloneVal(&ArrayV{Elem: elemT, Segs: segs}).(*ArrayV)
+	id := ex.newObj(st, fresh, nil)
 	return &SliceV{Obj: id, Off: mkConst(0, 64, true), Len: n, Cap: n}
 }
 
@@ -764,6 +784,9 @@ func (ex *Exec) copyOp(st *State, args []Val, x ssa.CallInstruction) Val {
 	}
 	src := &SliceV{Obj: s.Obj, Path: s.Path, Off: s.Off, Len: n, Cap: n}
 	segs, ok := ex.sliceSegs(st, src)
+	if ok {
+		segs = cloneVal(&ArrayV{Segs: segs}).(*ArrayV).Segs // copy semantics for struct elements
+	}
 	arr, ok2 := ex.arrOf(st, d)
 	if !ok || !ok2 || !ex.arrReplace(st, arr, st.TermOf(d.Off), segs, st.TermOf(n)) {
 		if ok2 {
